@@ -555,6 +555,12 @@ func (r *yieldRewriter) rewriteForStmt(
 	} else {
 		// can't declare variable in for-post, name conflict free
 		assert(!isDefineStmt(stmt.Post))
+		// but variables declared in the (trival) body may shadow the names used in post,
+		// so isolate the scope of body
+		if hasDeclStmt(body.block.List) {
+			body.block.List = []ast.Stmt{X.Block(body.block.List...)}
+			body.kinds = []stmtKind{kindTrival}
+		}
 		body.markCombined()
 		r.rewriteStmt(stmt.Post, true, body)
 	}
